@@ -200,10 +200,13 @@ def check(case, acc):
             acc.fail("wrong-result-dtype", exp, o)
         else:
             acc.fail("wrong-values", exp, o)
-    if not np.array_equal(decode(ra), a):
-        acc.fail("operand-modified", a.tolist(), decode(ra).tolist())
-    if kind == "bin" and not np.array_equal(decode(rb), b):
-        acc.fail("operand-modified", b.tolist(), decode(rb).tolist())
+    post = attempt(lambda: dense_obs(decode(ra), dt=False))
+    if post != dense_obs(a, dt=False):
+        acc.fail("operand-modified", a.tolist(), post)
+    if kind == "bin":
+        post = attempt(lambda: dense_obs(decode(rb), dt=False))
+        if post != dense_obs(b, dt=False):
+            acc.fail("operand-modified", b.tolist(), post)
     if kind == "cat":
         for name, obj, dense in (("second", rb2, b), ("third", ra2, a), ("array derived from the third", derived, a)):
             o2 = attempt(lambda: decode(obj).tolist())
